@@ -44,7 +44,7 @@ PLANS = {
             "thorough": [("book", "wide", 2000, 100, []), ("book", "reload", 6000, 120, ["--levels", "1,3,10,24"]), ("market", "reload", 2000, 120, ["--levels", "1,3,10"]), ("market", "reload", 300, 120, ["--assets", "12"]), ("book", "mixed", 3000, 120, ["--levels", "1,3,10"])]},
     "C08": {"quick": [("env", "plain", 900, 8, ["--levels", "3"]), ("menv", "plain", 600, 8, ["--levels", "3"]),
                       ("env", "toggle", 300, 8, []), ("menv", "toggle", 300, 8, []), ("env", "long", 16, 250, []), ("menv", "long", 16, 250, [])],
-            "thorough": [("env", "long", 64, 1500, []), ("menv", "long", 64, 1500, []), ("env", "plain", 5000, 12, ["--levels", "1,3,10"]), ("menv", "plain", 4000, 12, ["--levels", "1,3,10"]),
+            "thorough": [("env", "long", 24, 1000, []), ("menv", "long", 24, 1000, []), ("env", "plain", 5000, 12, ["--levels", "1,3,10"]), ("menv", "plain", 4000, 12, ["--levels", "1,3,10"]),
                          ("env", "toggle", 2000, 12, []), ("menv", "toggle", 2000, 12, [])]},
     # (C10's quantifier - "all interleavings of instruction submissions and steps" - has no batch-size clause: over-full batches belong to it)
     "C10": {"quick": [("env", "plain", 600, 8, []), ("menv", "plain", 600, 8, []), ("menv", "toggle", 300, 8, []), ("env", "toggle", 300, 8, []),
@@ -73,7 +73,7 @@ PLANS = {
                          ("menv", "toggle", 2000, 12, ["--assets", "2,3,4"]), ("market", "reload", 1000, 100, []), ("market", "malformed", 2000, 100, [])]},
     "C15": {"quick": [("env", "plain", 1200, 8, []), ("menv", "plain", 900, 8, []), ("env", "overfull", 300, 6, []),
                       ("env", "long", 16, 250, []), ("menv", "long", 16, 250, [])],
-            "thorough": [("env", "long", 64, 1500, []), ("menv", "long", 64, 1500, []), ("env", "plain", 20000, 10, []), ("menv", "plain", 10000, 10, []), ("env", "overfull", 3000, 8, [])]},
+            "thorough": [("env", "long", 24, 1000, []), ("menv", "long", 24, 1000, []), ("env", "plain", 20000, 10, []), ("menv", "plain", 10000, 10, []), ("env", "overfull", 3000, 8, [])]},
 }
 
 
